@@ -39,6 +39,12 @@ def _fact_shapes(fs):
             if b is not None and isinstance(b['_X'], ast.Name) and isinstance(b['_A'], ast.Constant) and isinstance(b['_B'], ast.Constant) \
                     and b['_A'].value == b['_B'].value and isinstance(b['_A'].value, int):
                 out[b['_X'].id] = b['_A'].value
+        # membership predicates fix the shape as well
+        if isinstance(e, ast.Call) and e.args and isinstance(e.args[0], ast.Name):
+            fn = e.func.attr if isinstance(e.func, ast.Attribute) else (e.func.id if isinstance(e.func, ast.Name) else None)
+            k = {'isrot': 3, 'ishom': 4, 'isrot2': 2, 'ishom2': 3}.get(fn)
+            if k is not None:
+                out[e.args[0].id] = k
     return out
 
 
@@ -46,11 +52,8 @@ def check_shapes(run, funcs, rule='R20'):
     n = 0
     for f in funcs:
         fi = FuncInfo.of(f)
-        calls = [c for c in own_walk(f.node) if isinstance(c, ast.Call)]
-        if not calls:
-            continue
         txt = ast.unparse(f.node)
-        if 'ismatrix' not in txt and '.shape ==' not in txt:
+        if 'ismatrix' not in txt and '.shape ==' not in txt and 'isrot' not in txt and 'ishom' not in txt:
             continue
         cfg = CFG(f.node)
         facts = must_facts(cfg)
@@ -62,12 +65,31 @@ def check_shapes(run, funcs, rule='R20'):
         for node in cfg.nodes:
             if node.id not in reach:
                 continue
-            shapes = {k: v for k, v in _fact_shapes(facts.get(node.id, frozenset())).items() if k not in assigned}
+            # (a fact about a name is killed by must_facts when the name is rebound, so the facts at a node speak about the current value)
+            shapes = dict(_fact_shapes(facts.get(node.id, frozenset())))
             if not shapes:
                 continue
             for h in header_expr(node):
                 if h is None:
                     continue
+                # constant subscripts of a matrix of known size k x k stay inside it
+                for sb in ast.walk(h):
+                    if isinstance(sb, ast.Subscript) and isinstance(sb.value, ast.Name) and sb.value.id in shapes and isinstance(sb.slice, ast.Tuple) \
+                            and len(sb.slice.elts) == 2:
+                        k = shapes[sb.value.id]
+                        idx = [x.value for x in sb.slice.elts if isinstance(x, ast.Constant) and isinstance(x.value, int) and not isinstance(x.value, bool)]
+                        if len(idx) != sum(1 for x in sb.slice.elts if isinstance(x, ast.Constant)):
+                            continue
+                        if not idx:
+                            continue
+                        n += 1
+                        bad_i = [i for i in idx if i >= k or i < -k]
+                        construct = 'index %s of a %dx%d matrix' % (src(sb, 24), k, k)
+                        if bad_i:
+                            run.violation(rule, f.key, construct, 'on every path to this expression %s is a %dx%d matrix (%s), so the constant index %d is out of '
+                                          'range: IndexError for every input that reaches it' % (sb.value.id, k, k, 'shape / membership test', bad_i[0]), f=f, node=sb)
+                        else:
+                            run.holds(rule, f.key, construct, 'inside the matrix', f=f, node=sb, nontrivial=False)
                 for c in ast.walk(h):
                     if not isinstance(c, ast.Call):
                         continue
